@@ -210,7 +210,7 @@ def main():
             path = write_replay(pid, tier, seed, pr['broken'], [], 'obligation no longer checks; no failing input found. lake log tail:\n' + pr['log'][-2500:])
             violations.append((path, ' no-failing-input-found'))
     elif drift:
-        path = write_replay(pid, tier, seed, 'correspondence: model and implementation differ outside the property projection', drift[:20], 'model drift')
+        path = write_replay(pid, tier, seed, 'correspondence: implementation and model differ, but the property\'s own predicate failed on no explored input (the theorems no longer speak about this code)', drift[:20], 'correspondence broken')
         violations.append((path, ' no-failing-input-found'))
     if not model_ok and not use_pinned and not violations:
         path = write_replay(pid, tier, seed, pr['broken'] or 'model driver unavailable', [], pr['log'][-2500:])
